@@ -320,8 +320,8 @@ def query_battery(d, names, parents=((),)):
 # Shaped histories crossing real geometry thresholds
 
 def threshold_histories(tier, seed):
-    """Directory-sector, FAT-sector, MiniFAT-sector (and, thorough, DIFAT)
-    growth at real geometry, each followed by removals, reopen and reuse."""
+    """Directory-sector, FAT-sector, MiniFAT-sector and DIFAT-sector (first and second) growth at
+    real geometry, each followed by removals, reopen and reuse."""
     rng = random.Random(seed)
     out = []
     pool = ["k1", "k2", "k3", "k4", "k5", "k6", "foo", "bar", "baz", "a", "B", "c", "Z", "aa", "AB", "zz", "quux",
@@ -408,8 +408,9 @@ def threshold_histories(tier, seed):
                    {"op": "create_stream", "p": sp(["c"])},
                    {"op": "write", "p": sp(["c"]), "off": 0, "runs": f.runs(rng, 5000), "heavy": True}]
             out.append({"id": f"fatgrow_v{ver}", "ver": ver, "heavy": "marked", "ops": ops})
-    if tier == "thorough":
-        # (d) DIFAT growth, V3 only (109 FAT sectors ~ 7 MiB); V4 needs 457 MiB
+    if True:
+        # (d) DIFAT growth, V3 only (109 FAT sectors ~ 7 MiB); V4 needs 457 MiB.  Both tiers: since the
+        # chain rules of CfbImage follow chains by halving, a 30,000-sector image is judged in seconds.
         f = Fill()
         ops = [{"op": "create_stream", "p": sp(["a"])},
                {"op": "write", "p": sp(["a"]), "off": 0, "runs": f.runs(rng, 7300000), "heavy": True},
